@@ -4,6 +4,13 @@ package main
 
 func nullRejectingObs() []Ob {
 	return []Ob{
+		// the RP's callback handlers call these function values on every error path: the getters never hand out nil
+		{ID: "E3.rp.error-handler-never-nil", Fn: "client/rp.(*relyingParty).ErrorHandler", P: []string{"rp"}, Kind: "ret any", Min: 1,
+			Why: "CodeExchangeHandler calls rp.ErrorHandler()(...) when the provider answers with an error: a nil handler panics instead of answering",
+			Req: []string{"nonnil($r0) || eq($r0, rp.DefaultErrorHandler) || def($r0, rp.DefaultErrorHandler)"}},
+		{ID: "E3.rp.unauthorized-handler-never-nil", Fn: "client/rp.(*relyingParty).UnauthorizedHandler", P: []string{"rp"}, Kind: "ret any", Min: 1,
+			Why: "the callback handlers call rp.UnauthorizedHandler()(...) on every state / cookie / exchange failure",
+			Req: []string{"nonnil($r0) || eq($r0, rp.DefaultUnauthorizedHandler) || def($r0, rp.DefaultUnauthorizedHandler)"}},
 		{ID: "E3.null-rejecting", Fn: "oidc.ParseToken", P: []string{"tokenString", "claims"}, Kind: "call", Pat: "json.Unmarshal($payload, $claims)", Max: 1,
 			Why: "a JWT payload that is the JSON literal null leaves pointer claims nil without an error",
 			Req: []string{`false(bytes.Equal(bytes.TrimSpace($payload), conv(_, "null"))) || neq(conv(string, bytes.TrimSpace($payload)), "null") || neq(strings.TrimSpace(conv(string, $payload)), "null")`}},
